@@ -19,7 +19,8 @@ ASSUMPTIONS = [
     'previously computed data is only combined with at least one table input that has no default (data/expiry are themselves outer-joined inputs, so '
     'without such an input their keys would extend the key set - not covered by the statement); expiry rows exist only for keys that have data',
     'past = 2000-01-01 and future = 2900-01-01, so the verdict does not depend on the run date',
-    'if_none, output_is_input, include_inputs and dict-output functions keep their defaults',
+    'if_none, output_is_input and include_inputs keep their defaults; functions with several named outputs (f.output, a dict result) only in the suite named_outputs',
+    'a table may carry only SOME of the key columns (suite partial_keys): it is joined on the ones it has, as the library does for every input (`d.keys() & on`)',
 ]
 
 PAST = datetime.datetime(2000, 1, 1)
@@ -465,6 +466,161 @@ def check_two(case):
     return out
 
 
+# ------------------------------------------------------------------------------------------------ two key columns, a table carrying only ONE of them
+
+def gen_partial():
+    subs = subsets(range(4))
+    for on in (['k', 'j'], ['j', 'k']):
+        for sa in subs:
+            for col, vals in (('k', ['x', 'y']), ('j', [1, 2])):
+                for sb in subsets(vals):
+                    yield {'shape': 'full-partial', 'a': list(sa), 'col': col, 'b': list(sb), 'on': on}
+        for sk in subsets(['x', 'y']):
+            for sj in subsets([1, 2]):
+                yield {'shape': 'cross', 'a': list(sk), 'b': list(sj), 'on': on}
+
+
+def check_partial(case):
+    """a table keyed by only some of the key columns is joined on the columns it has (each of its rows serves every key that agrees with it); the rows are
+    the joined keys, once each, sorted by the key columns in the order of `on`"""
+    from pyg_base import perdictable, join, dictable
+    out = Out()
+    calls = []
+
+    def f(a, b):
+        calls.append((a, b))
+        return 'f(%s,%s)' % (a, b)
+    on = case['on']
+    if case['shape'] == 'full-partial':
+        idx = list(case['a'])[::-1]
+        ta = dictable(k=[K2[i][0] for i in idx], j=[K2[i][1] for i in idx], a=['a:%s%s' % tuple(K2[i]) for i in idx])
+        col = case['col']
+        tb = dictable(**{col: list(case['b']), 'b': ['b:%s' % v for v in case['b']]})
+        rows = [(K2[i][0], K2[i][1], 'a:%s%s' % tuple(K2[i]), 'b:%s' % K2[i][0 if col == 'k' else 1]) for i in case['a'] if K2[i][0 if col == 'k' else 1] in case['b']]
+    else:
+        ks, js = list(case['a'])[::-1], list(case['b'])
+        ta = dictable(k=ks, a=['a:%s' % v for v in ks])
+        tb = dictable(j=js, b=['b:%s' % v for v in js])
+        rows = [(k, j, 'a:%s' % k, 'b:%s' % j) for k in ks for j in js]
+    rows = sorted(rows, key=lambda r: (r[0], r[1]) if on == ['k', 'j'] else (r[1], r[0]))
+    label = '%s: a = %s, b = %s, on=%s' % (case['shape'], dict(ta), dict(tb), on)
+    sig = dict(on=''.join(on), shape=case['shape'])
+    for how in ('perdictable', 'join'):
+        out.sub()
+        del calls[:]
+        try:
+            if how == 'perdictable':
+                res = perdictable(f, on=list(on))(a=ta, b=tb)
+            else:
+                res = join(dict(a=ta, b=tb), on=list(on))
+            out.call()
+        except Exception as e:
+            out.viol('perdictable-raised', '%s through %s raised %s: %s' % (label, how, type(e).__name__, e), exc=type(e).__name__, how=how, **sig)
+            continue
+        if not rows:
+            if calls:
+                out.viol('called-without-key', '%s: no key survives but f was called' % label, how=how, **sig)
+            out.cls('no-key')
+            continue
+        try:
+            if how == 'perdictable':
+                got = list(zip(res['k'], res['j'], res['data']))
+                want = [(r[0], r[1], 'f(%s,%s)' % (r[2], r[3])) for r in rows]
+            else:
+                got = list(zip(res['k'], res['j'], res['a'], res['b']))
+                want = list(rows)
+        except Exception:
+            out.viol('result-shape', '%s through %s: expected a table keyed by k, j; got %r' % (label, how, res), how=how, **sig)
+            continue
+        if got != want:
+            out.viol('wrong-keys' if [g[:2] for g in got] != [w[:2] for w in want] else 'wrong-value', '%s through %s: rows %s, expected %s (sorted by the key columns in the order of on)' % (
+                label, how, got, want), order_only=sorted(map(repr, got)) == sorted(map(repr, want)), how=how, **sig)
+        elif how == 'perdictable' and sorted(calls) != sorted((r[2], r[3]) for r in rows):
+            out.viol('wrong-call-count', '%s: f evaluated for %s, expected once for each of %s' % (label, calls, [(r[2], r[3]) for r in rows]), **sig)
+        if [r[:2] for r in rows] != [r[:2] for r in sorted(rows)] or len(rows) > 1:
+            out.nontrivial(how)
+        out.cls('partial-%s-%s' % (case['shape'], ''.join(on)))
+    return out
+
+
+# ------------------------------------------------------------------------------------------------ a function with several NAMED outputs
+
+def gen_named():
+    keys = [1, 2, 3]
+    for sa in subsets(keys):
+        for sb in subsets(keys):
+            for order in ('declared', 'reversed', 'extra-first'):
+                for cached in (None, 'past', 'future'):
+                    yield {'a': list(sa), 'b': list(sb), 'order': order, 'cached': cached}
+
+
+def check_named(case):
+    """f declares output = ['s', 'p'] and returns a dict: each output is a table of its own, holding per key the entry of THAT NAME of f's dict (whatever
+    order f filled its dict in); all-scalar calls return f's dict itself; a supplied earlier result with a past expiry is kept, f not called"""
+    from pyg_base import perdictable, dictable
+    out = Out()
+    calls = []
+    order = case['order']
+
+    def f(a, b):
+        calls.append((a, b))
+        res = {}
+        if order == 'extra-first':
+            res['zextra'] = 'extra'
+        for name in (['s', 'p'] if order == 'declared' else ['p', 's']):
+            res[name] = '%s(%s,%s)' % (name, a, b)
+        return res
+    f.output = ['s', 'p']
+    sa, sb = case['a'], case['b']
+    ta = dictable(k=sa[::-1], a=['a:%d' % i for i in sa[::-1]])
+    tb = dictable(k=sb, b=['b:%d' % i for i in sb])
+    surv = sorted(set(sa) & set(sb))
+    label = 'f with output=[s,p] filling its dict as %s; a over %s, b over %s, earlier result: %s' % (order, sa, sb, case['cached'])
+    sig = dict(order=order, cached=str(case['cached']))
+    out.sub()
+    p = perdictable(f, on='k')
+    try:
+        r0 = p(a='A', b='B')
+        out.call()
+        if not isinstance(r0, dict) or r0.get('s') != 's(A,B)' or r0.get('p') != 'p(A,B)':
+            out.viol('scalar-wrong', '%s: all-scalar call returned %r, expected f(...) itself' % (label, r0), **sig)
+    except Exception as e:
+        out.viol('perdictable-raised', '%s: all-scalar call raised %s: %s' % (label, type(e).__name__, e), exc=type(e).__name__, **sig)
+    del calls[:]
+    kw = {}
+    kept = []
+    if case['cached'] and surv:
+        old = surv[:1] if len(surv) > 1 else surv
+        kw = dict(s=dictable(k=old, s=['old s %d' % i for i in old]), p=dictable(k=old, p=['old p %d' % i for i in old]),
+                  expiry=dictable(k=old, expiry=[PAST if case['cached'] == 'past' else FUTURE for _ in old]))
+        kept = old if case['cached'] == 'past' else []
+    try:
+        res = p(a=ta, b=tb, **kw)
+        out.call()
+    except Exception as e:
+        out.viol('perdictable-raised', '%s raised %s: %s' % (label, type(e).__name__, e), exc=type(e).__name__, **sig)
+        return out
+    if not surv:
+        if calls:
+            out.viol('called-without-key', '%s: no key survives but f was called' % label, **sig)
+        out.cls('no-key')
+        return out
+    try:
+        got = {name: list(zip(res[name]['k'], res[name][name])) for name in ('s', 'p')}
+    except Exception:
+        out.viol('result-shape', '%s: expected a dict of the tables s and p keyed by k; got %r' % (label, res), **sig)
+        return out
+    want = {name: [(i, 'old %s %d' % (name, i) if i in kept else '%s(a:%d,b:%d)' % (name, i, i)) for i in surv] for name in ('s', 'p')}
+    if got != want:
+        out.viol('wrong-value' if {n: [g[0] for g in got[n]] for n in got} == {n: [g[0] for g in want[n]] for n in want} else 'wrong-keys',
+                 '%s: outputs %s, expected %s' % (label, got, want), **sig)
+    if sorted(calls) != sorted(('a:%d' % i, 'b:%d' % i) for i in surv if i not in kept):
+        out.viol('wrong-call-count', '%s: f evaluated for %s, expected once for each of %s' % (label, calls, [i for i in surv if i not in kept]), **sig)
+    out.nontrivial()
+    out.cls('named-%s-%s' % (order, case['cached']))
+    return out
+
+
 def suites(tier, seed):
     q = tier == 'quick'
     S = []
@@ -486,4 +642,10 @@ def suites(tier, seed):
     S.append(Suite('two_keys', gen_two, check_two,
                    rule='two key columns: a and b over every subset of {x,y}x{1,2}, on=[k,j] and on=[j,k], with and without a default for b; result sorted by the key '
                         'columns in the order given by on', bounds=dict(keys=4)))
+    S.append(Suite('partial_keys', gen_partial, check_partial,
+                   rule='two key columns, a over every subset of {x,y}x{1,2} and b keyed by ONE of the columns over every subset of its values, and the cross join of a '
+                        'table per key column; on=[k,j] and [j,k]; through perdictable and join: the natural join, once per key, sorted in the order of on', bounds=dict(keys=4)))
+    S.append(Suite('named_outputs', gen_named, check_named,
+                   rule='a function with output=[s,p] returning its dict in declared / reversed order / behind an extra entry; a, b over every subset of 3 keys; '
+                        'no earlier result / one with a past / a future expiry for the first surviving key', bounds=dict(keys=3, outputs=2)))
     return S
